@@ -201,6 +201,56 @@ def named_worker(part, _):
             part.state((name, tuple(args), vname))
 
 
+def argument_forms_worker(part, _):
+    """
+    the same lattice handed over in every form a caller holds it in: integer arrays (lattice vectors with whole-number components are the
+    usual textbook example - and oblique ones are the interesting case), Fortran order, a non-contiguous
+    view, a read-only array; through the constructor and through set_vectors.  The cell is the one those numbers describe
+    """
+    from chmpy.crystal.unit_cell import UnitCell
+
+    mats = [np.array(m) for m in ([[5, 0, 0], [0, 6, 0], [0, 0, 7]], [[5, 0, 0], [2, 6, 0], [1, -2, 7]], [[4, 0, 0], [-2, 5, 0], [0, 0, 9]], [[6, 0, 0], [0, 7, 0], [-3, 0, 8]],
+                                   [[3, 1, 0], [-1, 4, 1], [1, 0, 5]], [[10, 0, 0], [5, 9, 0], [5, 3, 8]], [[1, 0, 0], [0, 1, 0], [0, 0, 1]], [[2, 0, 0], [1, 2, 0], [1, 1, 2]])]
+    forms = {
+        "int64": lambda m: m.astype(np.int64), "int32": lambda m: m.astype(np.int32), "uint8-where-possible": lambda m: m.astype(np.uint8) if m.min() >= 0 else m.astype(np.int16),
+        "float64": lambda m: m.astype(np.float64),      # (lists / tuples are not accepted - the documented type is an array; float32 gives float32 accuracy: neither is demanded)
+        "fortran-order": lambda m: np.asfortranarray(m.astype(np.float64)), "strided-view": lambda m: np.repeat(np.repeat(m.astype(np.float64), 2, axis=0), 2, axis=1)[::2, ::2],
+        "read-only-int": lambda m: _readonly(m.astype(np.int64)), "read-only-float": lambda m: _readonly(m.astype(np.float64)),
+    }
+    for mi, m in enumerate(mats):
+        D = m.astype(float)
+        ln = np.linalg.norm(D, axis=1)
+        params = (ln[0], ln[1], ln[2], angle(D[1], D[2]), angle(D[0], D[2]), angle(D[0], D[1]))
+        for fname, conv in forms.items():
+            for route in ("constructor", "set_vectors"):
+                part.ev()
+                part.tr()
+                case = {"kind": "argforms"}
+                arg = conv(m)
+                keep = np.array(arg, dtype=float).copy()
+                try:
+                    if route == "constructor":
+                        uc = UnitCell(arg)
+                    else:
+                        uc = UnitCell(np.eye(3) * 3.0)
+                        uc.set_vectors(arg)
+                    ok = check_cell(part, uc, params, "vectors-as-%s:%s" % (fname, route), case, frame_free=True)
+                    if ok and not (np.abs(np.asarray(uc.direct, dtype=float) - D).max() <= 1e-6 * ln.max()):
+                        part.fail("argforms:direct:%s" % fname, "UnitCell from the lattice %s given as %s (%s): direct matrix %s" % (m.tolist(), fname, route, np.asarray(uc.direct).tolist()), case)
+                except Exception as e:
+                    part.fail("raise:argforms:%s:%s" % (fname, route), "UnitCell from the lattice %s given as %s (%s) raised %s: %s" % (m.tolist(), fname, route, type(e).__name__, str(e)[:80]), case)
+                    continue
+                if not np.array_equal(np.array(arg, dtype=float), keep):
+                    part.fail("argforms:argument-edited:%s" % fname, "UnitCell (%s) edited the caller's lattice array given as %s" % (route, fname), case)
+                part.outcome(("argforms", fname, route, mi == 0))
+        part.state(("argforms", mi))
+
+
+def _readonly(a):
+    a.setflags(write=False)
+    return a
+
+
 def history_worker(part, depth):
     """
     a UnitCell is a mutable object that can be re-specified through set_lengths_and_angles / set_vectors: every sequence of
@@ -309,6 +359,8 @@ def run(ctx):
     ctx.assumptions = ["relative tolerance 1e-9 (angles scaled by 1/sin near 0/180 degrees); cells flatter than sqrt(det G)/abc = 0.02 excluded as degenerate"]
     ctx.pmap(grid_worker, chunked(cells, max(1, len(cells) // 128)), unit_rad=True)
     ctx.pmap(named_worker, [0])
+    ctx.pmap(argument_forms_worker, [0])
+    ctx.bounds["argument_forms"] = "8 whole-number lattices (orthogonal and oblique) x 8 array forms (integer dtypes / Fortran / strided / read-only) x {constructor, set_vectors}"
     ctx.pmap(history_worker, [3 if ctx.thorough else 2])
     bases = [(7.0, 8.0, 9.0, 81.0, 97.0, 104.0), (5.1, 11.3, 13.7, 60.0, 65.0, 115.0), (7.0, 7.0, 7.0, 90.0, 90.0, 90.0), (6.0, 6.0, 11.0, 90.0, 90.0, 120.0),
              (9.5, 9.5, 9.5, 98.432, 98.432, 98.432), (3.0, 40.0, 7.5, 90.0, 131.25, 90.0)]
@@ -323,6 +375,8 @@ def replay(ctx, case):
         near_duplicate_worker(ctx, tuple(case["base"]))
     elif case.get("kind") == "history":
         history_worker(ctx, 3)
+    elif case.get("kind") == "argforms":
+        argument_forms_worker(ctx, 0)
     elif case.get("kind") == "grid":
         grid_worker(ctx, [(0, tuple(case["params"]))], True)
     else:
